@@ -3,8 +3,8 @@ K = 'github.com/ProjectSerenity/firefly/kernel'
 B = 'github.com/ProjectSerenity/firefly/kbuild'
 
 PROP = {'pkg': 'github.com/ProjectSerenity/firefly/kernel/kfmt',
- 'tests': [{'name': 'TestVerifC15', 'checks_quick': 60000, 'checks_thorough': 1600000},
-           {'name': 'TestVerifC15Raw', 'checks_quick': 20000, 'checks_thorough': 400000, 'shards_quick': 2}],
+ 'tests': [{'name': 'TestVerifC15', 'checks_quick': 200000, 'checks_thorough': 3000000},
+           {'name': 'TestVerifC15Raw', 'checks_quick': 60000, 'checks_thorough': 1000000, 'shards_quick': 2}],
  'fuzz': [{'name': 'FuzzVerifC15', 'seconds': 90}],
  'rule': 'rapid generates a format AST (literal runs, %%, %[width]verb with verb in d/x/o/s/t) plus an argument list '
          '(every built-in integer type at boundary values, strings/byte slices, bools, wrong types, too few / too '
